@@ -1,19 +1,37 @@
 """
 C14 — ordinary prose passes through unchanged.
 
-Exploration: paragraphs of 1-4 lines assembled from a vocabulary of tricky-but-inert tokens,
-filtered by an independent inertness predicate written from the specification (block-start
-patterns per line, inline triggers over the whole paragraph, the delimiter-run algorithm for * and
-_), must be rendered as exactly that text, HTML-escaped, inside a single <p>.
+Theorems (lean/Mistletoe/Props/C14.lean; lemmas in Proofs/Inert.lean, Proofs/InertInline.lean) over the parser model
+and the HTML renderer model, for every token-type list containing Paragraph and every span list of inert classes:
+  * block level (`C14_single_paragraph`, `C14_block_phase`, `C14_blank_separated*`): lines on which no block-start
+    pattern fires (`inertLine`: the executable conjunction of all block scanners) form exactly one Paragraph holding
+    exactly those lines, numbered with the line it starts on; a line starting with a letter or another plain
+    character after at most three spaces is such a line (`C14_inert_of_plain*`);
+  * inline level (`C14_inline_inert`, `C14_inline_lines`): a text satisfying the decidable condition `inertBody`
+    (no backslash / backtick; `<` not followed by a tag or autolink start; `&` not starting a reference; no `~~`;
+    no `]` after the first `[`; every run of * or _ unable to close emphasis by the flanking rules) yields no token
+    candidate at all, hence raw text and soft line breaks only;
+  * end to end (`C14_prose`, `C14_prose_text`): Document(text) is one Paragraph of exactly that text and the HTML
+    renderer writes "<p>" + escape(text) + "</p>\n" for every option set.
+Units: `scan.*`, `doc` (real Document + HtmlRenderer against the model on this run's paragraphs, accepted or not) and
+`c14.theorem`: the theorem's executable hypotheses are evaluated by the second driver (lean/PropsMain.lean) on every
+generated paragraph; where they hold, the REAL renderer's output must be what the theorem concludes.  The evidence
+records which share of the spec-derived inert domain the Lean hypotheses cover.
+Exploration: paragraphs of 1-4 lines assembled from a vocabulary of tricky-but-inert tokens, filtered by an
+independent inertness predicate written from the specification (block-start patterns per line, inline triggers over
+the whole paragraph, the delimiter-run algorithm for * and _), must be rendered as exactly that text, HTML-escaped,
+inside a single <p>.
 """
 import re
 
 import common
+import doc_units
 import impl
+import scan_units
 import spec_emph
 
 ID = 'C14'
-LEVEL = 'exploration'
+EXTRA_MODULES = ['Mistletoe.Proofs.Inert', 'Mistletoe.Proofs.InertInline', 'propsdriver']
 RULE = ('paragraphs of 1-4 lines of 1-8 tokens from a ~120-token vocabulary (intraword underscores, isolated * - + # > = | ~ ^ $ '
         '% @, unpaired and unlinked brackets, ampersands not starting a reference, digits/dots/parentheses not forming list '
         'markers, quotes, non-ASCII letters and punctuation), kept only when the spec-derived predicate `inert` accepts them. '
@@ -21,8 +39,10 @@ RULE = ('paragraphs of 1-4 lines of 1-8 tokens from a ~120-token vocabulary (int
 TRUSTED = ['harness/props/c14.py:inert is the independent reading of the specification used as filter (conservative: it only '
            'accepts paragraphs in which the specification gives no character a meaning)']
 ASSUMPTIONS = []
-PARTIAL = ['interim level: exploration with a spec-derived oracle. The Lean theorem C14_prose over the parser model is the '
-           'planned upgrade']
+PARTIAL = ['the Lean hypotheses (`inertLine`, `proseLine`, `inertBody`) are sufficient conditions, not the whole inert domain of '
+           'the specification: e.g. a delimiter run that could close but has no opener, "]" after "[" without a link, an "&" '
+           'followed by a name and ";" that is not an entity are outside them; those paragraphs are covered by the exploration '
+           'against the spec-derived predicate only (the evidence gives the measured share)']
 
 VOCAB = ['foo', 'bar', 'Baz', 'snake_case', 'a_b_c', '_', 'x_', '__init__ed', '5 * 6', '*', '3*', '- 1', '-', '--', 'a-b', '+', '1+1', 'c++',
          '#', '#tag', 'C#', '# ', '>', '->', '=>', '>=', '<', '< 3', '<=', 'a<b', '=', '==', '===x', '|', 'a|b', '||', '~', '~x', 'a~b', '^', 'x^2',
@@ -147,8 +167,40 @@ def gen(rng):
     return lines
 
 
+def _paragraphs(ctx):
+    rng = ctx.rng('unit-paragraphs')
+    out = [['a_b_c * d', '3.14) x | y # z & w'], ['AT&T & co'], ['snake_case_name and _x'], ['x * y * z'], ['[unpaired']]
+    for _ in range(ctx.budget(6000, 60000)):
+        out.append(gen(rng))
+    return out
+
+
 def units(ctx):
-    pass
+    scan_units.run(ctx)
+    paras = _paragraphs(ctx)
+    texts = ['\n'.join(l) + '\n' for l in paras]
+    doc_units.run(ctx, texts[:ctx.budget(3000, 30000)], configs=doc_units.CONFIGS[:3])
+    # the theorem's hypotheses, evaluated in Lean, and its conclusion, checked on the real renderer
+    reqs = [{'op': 'c14.hyps', 'lines': [l + '\n' for l in ls]} for ls in paras]
+    hyps = common.driver_batch(reqs, binary=common.PROPS_DRIVER)
+    n_spec = n_both = n_lean = 0
+    for ls, h in zip(paras, hyps):
+        spec_ok = inert(ls)
+        lean_ok = isinstance(h, dict) and all(h.get(k) for k in ('nonEmpty', 'oneLine', 'inertLine', 'proseLine', 'inertBody'))
+        n_spec += spec_ok
+        n_lean += lean_ok
+        n_both += spec_ok and lean_ok
+        if not lean_ok:
+            continue
+        text = '\n'.join(ls) + '\n'
+        try:
+            real = impl.parse_render('HtmlRenderer', {}, text)[1]
+        except Exception as e:
+            real = {'raises': type(e).__name__}
+        concluded = '<p>' + esc(h['text']) + '</p>\n'
+        ctx.compare('c14.theorem', {'lines': ls}, concluded, real, kind='%d-line' % len(ls))
+    ctx.notes.append('of %d generated paragraphs: %d in the spec-derived inert domain, %d meet the Lean hypotheses, %d both'
+                     % (len(paras), n_spec, n_lean, n_both))
 
 
 def explore(ctx, seeds):
